@@ -17,9 +17,9 @@
     * `_addFiber` reconciliation + owner delegation (tensor.py:731-753, fiber.py:1448-1572,
       2648-2653)                                                       → `joinShape`, `joined`
 
-  The model functions (`m…`) follow the code as it is — formats are looked up *by rank id*
-  (`Tensor.getFormat` → `list.index`), swizzle goes through `fromFiber` without restoring
-  formats / mutability, swap passes `shape = None`, unflatten never calls `setDefault`.
+  The model functions (`m…`) follow the code as it is (at /repo e4536c9: swizzle restores formats and
+  mutability, swap passes the swapped authoritative shape, unflatten passes the default) — formats
+  are looked up *by rank id* (`Tensor.getFormat` → `list.index`).
   The specification functions (`s…`) are the documented carry-over (positional).
   Everything is Mathlib-free and executable.
 -/
@@ -193,8 +193,9 @@ def mSwizzle (order : List RId) (m : Meta) : Meta :=
       -- `guide[i] = old_rank_ids.index(rank_ids[i])`
       shape := m.shape.map (fun s => (order.take n).map (fun r => lookD m.ids s r default) ++ s.drop n)
       dflt := m.dflt
-      fmts := order.map (fun _ => Fmt.C)     -- `Tensor.fromFiber(**kwargs)`: fresh ranks
-      mutable := false }                      -- … and `setMutable(False)`
+      -- since /repo ba838e8: `for rank_id in rank_ids: swizzled.setFormat(rank_id, self.getFormat(rank_id))`
+      fmts := order.map (fun r => m.getFmt r)
+      mutable := m.mutable }                  -- … and `swizzled.setMutable(self.isMutable())`
 
 /-- documented: the requested order; shape, formats permuted alike; default, mutability kept -/
 def sSwizzle (order : List RId) (m : Meta) : Meta :=
@@ -209,17 +210,14 @@ def sSwizzle (order : List RId) (m : Meta) : Meta :=
 def swapAt {α : Type} (k : Nat) (l : List α) : List α :=
   l.take k ++ (l.drop (k + 1)).take 1 ++ (l.drop k).take 1 ++ l.drop (k + 2)
 
-/-- `emptyBranch`: every fiber of rank `k` is empty, the code then deep-copies the root instead of
-    swapping (tensor.py:1550-1555); the copied fibers still carry the attributes of their old ranks,
-    so `_addFiber` re-installs the *old, unswapped* shape entries as declared ones — `carried` is
-    that shape (`some` iff the operand's shape was authoritative, every rank holds a fiber and
-    every entry is truthy). Otherwise the
-    result's shape is not set: "TBD: Create shape" (tensor.py:1545-1547). -/
-def mSwap (k : Nat) (emptyBranch : Bool) (carried : Option (List Sx)) (m : Meta) : Option Meta :=
+/-- since /repo 38ce55b the operand's authoritative shape is passed on with entries `k`, `k+1`
+    exchanged (`shape[depth], shape[depth + 1] = shape[depth + 1], shape[depth]`), in both branches
+    (real swap / deep copy of an all-empty rank); formats are looked up by id -/
+def mSwap (k : Nat) (m : Meta) : Option Meta :=
   if k + 1 < m.ids.length then
     let ids' := swapAt k m.ids
     some { ids := ids'
-           shape := if emptyBranch then carried else none
+           shape := m.shape.map (swapAt k)
            dflt := m.dflt
            fmts := ids'.map (fun r => m.getFmt r)
            mutable := m.mutable }
@@ -306,11 +304,12 @@ def unflShape : Nat → Nat → List Sx → Option (List Sx)
     | _ => none
 
 /-- `rep` is what `self.getShape()` reports (authoritative *or estimated*): the code passes it on
-    as the declared shape of the result.  No `setDefault`: the result's default is 0. -/
+    as the declared shape of the result.  Since /repo e4536c9 the leaf default is passed to
+    `Tensor.fromFiber`. -/
 def mUnflatten (k levels : Nat) (rep : List Sx) (m : Meta) : Option Meta :=
   match unflIds levels k m.ids, unflShape levels k rep with
   | some ids', some s' =>
-    some { ids := ids', shape := some s', dflt := 0, fmts := ids'.map m.fmtOrC, mutable := m.mutable }
+    some { ids := ids', shape := some s', dflt := m.dflt, fmts := ids'.map m.fmtOrC, mutable := m.mutable }
   | _, _ => none
 
 /-- documented: the inverse re-arrangement of ids and (authoritative) shape; default, mutability
